@@ -120,17 +120,20 @@ type Rec12 struct {
 // fresh parser; if `shared` is given the same text is then parsed by that
 // long-lived notation instance, which must behave exactly like the fresh one
 // whatever it parsed before.
-func ParseTokens(toks []string, r *rand.Rand, shared func(string) any) Rec12 {
+func ParseTokens(toks []string, r *rand.Rand, shared ...func(string) any) Rec12 {
 	for i := range toks {
 		toks[i] = Expand(toks[i])
 	}
 	var text, pieces = Render(toks, r)
 	var out = Parse(text, 5*time.Second)
-	if shared != nil && out.Status != "timeout" {
-		var again = ParseWith(shared, text, 5*time.Second)
+	for i, sh := range shared {
+		if out.Status == "timeout" || out.Status == "history-dependent" {
+			break
+		}
+		var again = ParseWith(sh, text, 5*time.Second)
 		if again.Status != out.Status || !reflect.DeepEqual(again.Diag, out.Diag) {
 			out.Status = "history-dependent"
-			out.Detail = "a notation that has parsed other inputs before: " + again.Status + " " + again.Detail
+			out.Detail = []string{"a notation", "a parser"}[i%2] + " that has parsed other inputs before: " + again.Status + " " + again.Detail
 		}
 	}
 	return Rec12{Status: out.Status, Pieces: pieces, Total: utf8.RuneCountInString(text), Diag: out.Diag, Text: text, Detail: out.Detail}
